@@ -129,9 +129,55 @@ def c15_matrix():
     return items
 
 
+NV, UNIT = ("NoValue",), ("Unit",)
+
+
+def sub_nv(a, b):
+    """the property's relation with NoValue as bottom (written hints may name NoValue)"""
+    if a == NV:
+        return True
+    if a == b:
+        return True
+    if a[0] != b[0]:
+        return False
+    k = a[0]
+    if k in ("List", "Option"):
+        return sub_nv(a[1], b[1])
+    if k == "Tuple":
+        return len(a) == len(b) and all(sub_nv(x, y) for x, y in zip(a[1:], b[1:]))
+    if k == "Fun":
+        return len(a[1]) == len(b[1]) and all(sub_nv(y, x) for x, y in zip(a[1], b[1])) and sub_nv(a[2], b[2])
+    return False
+
+
+def show_nv(t):
+    return "NoValue" if t == NV else ("Unit" if t == UNIT else (
+        "%s<%s>" % (t[0], show_nv(t[1])) if t[0] in ("List", "Option") else (
+            "(%s)" % ", ".join(show_nv(x) for x in t[1:]) if t[0] == "Tuple" else (
+                "Fun<(%s), %s>" % (", ".join(show_nv(x) for x in t[1]), show_nv(t[2])) if t[0] == "Fun" else t[0]))))
+
+
+def c14_runtime_matrix():
+    """A closure of type Fun<(P), Unit> passed to a parameter annotated Fun<(Q), Unit>: the runtime argument
+    check must accept exactly when Q <: P (contravariance), for parameter types nested up to depth 3 around a
+    strictly related pair (NoValue <: Int)."""
+    def nest(x):
+        return [x, ("List", x), ("Tuple", x, STR), ("Fun", (), x), ("Fun", (x,), UNIT), ("List", ("List", x)), ("Fun", (("List", x),), UNIT)]
+    items = []
+    for (p, q) in zip(nest(INT), nest(NV)):
+        for (given, hint) in ((p, q), (q, p), (p, p)):
+            # closure value: fun(_: given): Unit {}   parameter hint: Fun<(hint), Unit>
+            expect = sub_nv(("Fun", (given,), UNIT), ("Fun", (hint,), UNIT))
+            items.append({"what": "fun(_: %s) passed as Fun<(%s), Unit>" % (show_nv(given), show_nv(hint)),
+                          "src": "fun accept(_: Fun<(%s), Unit>): Unit {\n  println(\"accepted\")\n}\n\n{\n  accept(fun(_: %s): Unit {})\n}\n" % (show_nv(hint), show_nv(given)),
+                          "expect_accept": expect})
+    return items
+
+
 def witnesses_for(prop, f):
     if prop == "C14":
-        return [{"match": ".", "kind": "check-matrix", "input": c14_matrix(), "timeout": 120}]
+        return [{"match": ".", "kind": "check-matrix", "input": c14_matrix(), "timeout": 120},
+                {"match": ".", "kind": "run-matrix", "input": c14_runtime_matrix(), "timeout": 120}]
     if prop == "C15":
         return [{"match": ".", "kind": "check-matrix", "input": c15_matrix(), "timeout": 120}]
     return []
